@@ -5,6 +5,7 @@
 #include <sys/wait.h>
 #include <poll.h>
 void neatvi_verif_boundary(void);
+void neatvi_verif_draw(int kind, int a, int b, int c, int d);
 #define main vi_main
 #include "vi.c"
 #undef main
@@ -258,6 +259,57 @@ static void emu_dump_rows(FILE *f, struct emu *e, int nrows)
 	}
 }
 
+/* ---------------------------------------------------------------- log of the screen update routines */
+#include <stdarg.h>
+static char oplog[1 << 16];
+static int oplen, in_routine, in_dump, lastrow;
+
+static void op_add(const char *fmt, ...)
+{
+	va_list ap;
+	va_start(ap, fmt);
+	if (oplen < (int) sizeof(oplog) - 64)
+		oplen += vsnprintf(oplog + oplen, sizeof(oplog) - oplen, fmt, ap);
+	va_end(ap);
+}
+
+/* entry (A U F) and exit (a u f) of vi_drawagain / vi_drawupdate / vi_drawfix */
+void neatvi_verif_draw(int kind, int a, int b, int c, int d)
+{
+	if (in_dump)
+		return;
+	if (kind == 'A' || kind == 'U' || kind == 'F') {
+		in_routine = 1;
+		op_add("%s%c:%d:%d:%d:%d:%d[", oplen ? ";" : "", kind, a, b, c, d, xtop);
+	} else {
+		in_routine = 0;
+		op_add("]");
+	}
+}
+
+void __real_term_room(int n);
+void __wrap_term_room(int n)
+{
+	if (in_routine && !in_dump)
+		op_add("R%d:%d,", lastrow, n);
+	__real_term_room(n);
+}
+
+void __real_term_pos(int r, int c);
+void __wrap_term_pos(int r, int c)
+{
+	lastrow = r;
+	__real_term_pos(r, c);
+}
+
+void __real_led_print(char *s, int row, int left, char *syn);
+void __wrap_led_print(char *s, int row, int left, char *syn)
+{
+	if (in_routine && !in_dump)
+		op_add("D%d,", row);
+	__real_led_print(s, row, left, syn);
+}
+
 /* ---------------------------------------------------------------- dumps */
 static FILE *dumpf;
 static int nbound;
@@ -304,9 +356,11 @@ static void dump_state(int mark)
 		emu_init(&emuB, emuA.rows, emuA.cols);
 		emu_cur = &emuB;
 		strcpy(msg, vi_msg);
+		in_dump = 1;
 		term_record();
 		vi_drawagain(0, -1);
 		term_commit();
+		in_dump = 0;
 		strcpy(vi_msg, msg);
 		emu_cur = &emuA;
 		(void) savedr;
@@ -315,6 +369,9 @@ static void dump_state(int mark)
 	} else {
 		fprintf(dumpf, "-|-|0");
 	}
+	/* what the screen update routines did since the last boundary */
+	fprintf(dumpf, "|%s", oplen ? oplog : "-");
+	oplen = 0; oplog[0] = '\0'; in_routine = 0;
 	fflush(dumpf);
 }
 
